@@ -76,8 +76,34 @@ func (f *FuncVC) baseEval(st *State) *Eval {
 		for _, l := range f.con.Lets {
 			ev.lets[l.Name] = l.Expr
 		}
+		for _, a := range f.con.Anys {
+			ev.env[a[0]] = f.anyVal(a[0], a[1])
+		}
 	}
 	return ev
+}
+
+// anyVal returns the arbitrary-but-fixed constant declared by "any x T".
+func (f *FuncVC) anyVal(name, ty string) *Val {
+	if f.anys == nil {
+		f.anys = map[string]*Val{}
+	}
+	if v, ok := f.anys[name]; ok {
+		return v
+	}
+	c := f.sc.declare(sym("any."+name), "Int")
+	v := &Val{K: KInt, T: c}
+	if obj := types.Universe.Lookup(ty); obj != nil {
+		v.Ty = obj.Type()
+		if lo, hi, ok := intRangeOf(obj.Type()); ok {
+			f.sc.assert(and(cmp("<=", numBig(lo), c), cmp("<=", c, numBig(hi))))
+			v.Lo, v.Hi = lo, hi
+		}
+	} else {
+		f.unsup("any " + name + ": type " + ty + " is not a basic integer type")
+	}
+	f.anys[name] = v
+	return v
 }
 
 // entryEval: parameters have their entry values, heap is the entry heap.
